@@ -141,10 +141,25 @@ Definition handlers := list (nat * cmd).
 Fixpoint lookup (tg : nat) (hs : handlers) : cmd :=
   match hs with [] => c_done | (t, c) :: r => if Nat.eqb t tg then c else lookup tg r end.
 
+(* the executor's Slab<Option<BoxFuture>> (slab 0.4.9): vacant entries form a LIFO free list through
+   their next pointers.  The keys matter: a waker that outlives its task (it sits in a channel whose
+   receiver is gone) names a slot, and wakes whatever task holds that slot now *)
+Inductive xent := XOcc (cid : nat) | XVac (next : nat).
+Definition xslab := (list xent * nat)%type.
+Definition xget (q : nat) (s : xslab) : option nat :=
+  match getd (XVac 0) q (fst s) with XOcc c => Some c | XVac _ => None end.
+Definition xinsert (cid : nat) (s : xslab) : nat * xslab :=
+  let key := snd s in
+  if Nat.eqb key (length (fst s)) then (key, (fst s ++ [XOcc cid], S key))
+  else let nx := match getd (XVac 0) key (fst s) with XVac n => n | XOcc _ => 0 end in
+       (key, (updd (XVac 0) key (fun _ => XOcc cid) (fst s), nx)).
+Definition xremove (q : nat) (s : xslab) : xslab := (updd (XVac 0) q (fun _ => XVac (snd s)) (fst s), q).
+Definition xlive (s : xslab) : nat := length (filter (fun e => match e with XOcc _ => true | XVac _ => false end) (fst s)).
+
 Record core := mkC {
   k_H : heap;
   k_spawn : list nat;            (* executor spawn_queue: commands handed to CommandSpawner::spawn *)
-  k_slab : list (option nat);    (* executor task slots: which command the task hosts (None = free) *)
+  k_slab : xslab;                (* executor task slots: which command the task hosts *)
   k_events : list event;         (* capability_events channel *)
   k_out : list effect;           (* requests channel *)
   k_log : list event;            (* the app's model: every event applied, in order *)
@@ -152,16 +167,10 @@ Record core := mkC {
 }.
 Definition setH (H : heap) (k : core) := mkC H (k_spawn k) (k_slab k) (k_events k) (k_out k) (k_log k) (k_reqs k).
 
-Fixpoint first_free (i : nat) (l : list (option nat)) : nat :=
-  match l with [] => i | None :: _ => i | Some _ :: r => first_free (S i) r end.
-(* only the order of the ready queue is observable, not the keys; a first-free allocator is enough *)
-Definition xinsert (cid : nat) (l : list (option nat)) : nat * list (option nat) :=
-  let q := first_free 0 l in (q, updd None q (fun _ => Some cid) l).
-
 (* QueuingExecutor::run_task on a CommandSpawner task *)
 Fixpoint xrun_task (fuel : nat) (q : nat) (k : core) : option core :=
   match fuel with 0 => None | S f =>
-  match getd None q (k_slab k) with
+  match xget q (k_slab k) with
   | None => Some k                                   (* Missing *)
   | Some cid =>
     match poll_next FUEL cid (WExec q) (k_H k) with
@@ -169,7 +178,7 @@ Fixpoint xrun_task (fuel : nat) (q : nat) (k : core) : option core :=
     | Some (PNEffect e, H1) => xrun_task f q (mkC (push_hout e H1) (k_spawn k) (k_slab k) (k_events k) (k_out k) (k_log k) (k_reqs k))
     | Some (PNEvent e, H1) => xrun_task f q (mkC H1 (k_spawn k) (k_slab k) (k_events k ++ [e]) (k_out k) (k_log k) (k_reqs k))
     | Some (PNDone, H1) =>
-        Some (mkC (drop_cmd DF cid H1) (k_spawn k) (updd None q (fun _ => None) (k_slab k)) (k_events k) (k_out k) (k_log k) (k_reqs k))
+        Some (mkC (drop_cmd DF cid H1) (k_spawn k) (xremove q (k_slab k)) (k_events k) (k_out k) (k_log k) (k_reqs k))
     | Some (PNPending, H1) => Some (setH H1 k)
     end
   end end.
@@ -250,7 +259,7 @@ Definition cstep (hs : handlers) (a : action) (k : core) : option (obs * core) :
       end
   | AAbort name => Some (ONone, setH (add_aborted name (k_H k)) k)
   | AEffects | AEvents | AIsDone | ASpawn _ => Some (ONone, k)
-  | ALive => Some (OLive (length (filter (fun o => match o with Some _ => true | None => false end) (k_slab k))), k)
+  | ALive => Some (OLive (xlive (k_slab k)), k)
   end.
 
 Fixpoint crun (hs : handlers) (acts : list action) (k : core) : option (list obs) :=
@@ -261,7 +270,7 @@ Fixpoint crun (hs : handlers) (acts : list action) (k : core) : option (list obs
               | Some (o, k') => match crun hs r k' with None => None | Some os => Some (o :: os) end
               end
   end.
-Definition core0 := mkC H0 [] [] [] [] [] [].
+Definition core0 := mkC H0 [] ([], 0) [] [] [] [].
 Definition under_core (hs : handlers) (acts : list action) : option (list obs) := crun hs acts core0.
 
 End WithFuel.
